@@ -1,5 +1,6 @@
 """C04 — Each image-up-to-layer view equals the OCI overlay of its layers (plus the layer byte-limit clause of C10)."""
 import binascii
+import collections
 import os
 import subprocess
 import tempfile
@@ -25,9 +26,11 @@ META = {
 THEOREMS = ['Scalibr.Overlay.C04_view_partial', 'Scalibr.Overlay.C04_loader_views', 'Scalibr.Overlay.C04_loader_partial',
             'Scalibr.Overlay.C04_image_partial', 'Scalibr.Overlay.loadImage_chains',
             'Scalibr.Overlay.C04_view_nowhiteout_partial', 'Scalibr.Overlay.C04_readdir_partial', 'Scalibr.Overlay.C04_walk_partial',
-            'Scalibr.Overlay.C04_required', 'Scalibr.Overlay.C04_required_get', 'Scalibr.Overlay.C04_required_subset',
+            'Scalibr.Overlay.C04_required', 'Scalibr.Overlay.C04_required_view', 'Scalibr.Overlay.C04_required_unique',
+            'Scalibr.Overlay.C04_required_universe', 'Scalibr.Overlay.C04_required_get', 'Scalibr.Overlay.C04_required_subset',
             'Scalibr.Overlay.C04_view_fails_recreate', 'Scalibr.Overlay.C04_view_fails_opaque', 'Scalibr.Overlay.C04_view_fails_dropped_entry',
             'Scalibr.Overlay.C04_view_fails_wh_recreate', 'Scalibr.Overlay.C04_view_fails_implicit_dir',
+            'Scalibr.Overlay.C04_view_fails_duplicate', 'Scalibr.Overlay.C04_duplicate_first_wins_witness',
             'Scalibr.Overlay.C04_witness_classes', 'Scalibr.Overlay.view_gen', 'Scalibr.Overlay.revLayer_apply', 'Scalibr.Overlay.loadCore_eq_viewOf',
             'Scalibr.Overlay.C10_layer_bytes', 'Scalibr.Overlay.C10_layer_bytes_loader', 'Scalibr.Overlay.C10_layer_bytes_final',
             'Scalibr.Overlay.C10_layer_bytes_boundary', 'Scalibr.Overlay.C10_disk_bytes', 'Scalibr.Overlay.C10_disk_bytes_load',
@@ -42,6 +45,8 @@ CLASS_KEY = {
     'implicit-dir': 'C04/implicit-parent-metadata',
 }
 PRIORITY = ['opaque', 'wh-recreate', 'dropped-entry', 'recreate', 'implicit-dir']
+DUP_KEY = 'C04/same-layer-duplicate-first-wins'
+STATS = collections.Counter()
 
 
 def _items(view):
@@ -106,20 +111,49 @@ def _judge1(case, fi, fm):
     iw, il = fi['walk'].split('|'), fi['look'].split('|')
     sw, sl = fm['spec_walk'].split('|'), fm['spec_look'].split('|')
     wf, cls = fm['wf'], fm['cls'].split('|')
-    if not (len(iw) == len(il) == len(sw) == len(sl) == len(wf) == len(cls) == nv):
+    awf, aw, al = fm.get('alt_wf', ''), fm.get('alt_walk', '').split('|'), fm.get('alt_look', '').split('|')
+    if not (len(iw) == len(il) == len(sw) == len(sl) == len(wf) == len(cls) == len(awf) == len(aw) == len(al) == nv):
         return None, None          # shape mismatch: the correspondence comparison reports it
-    for j in range(nv):
+    if fm.get('dd') != '1':
+        return 'model self-check dd failed: the model\'s view changes when repeated member names are left out', None
+    STATS['images loaded'] += 1
+    finding = None
+    for j in range(nv):            # every view is judged: a finding in view j does not hide a violation in a later view
+        STATS['views'] += 1
+        if wf[j] == '1':
+            STATS['views with H (judged strictly)'] += 1
         d, kind = _view_diff(j, nv, req, iw[j], il[j], sw[j], sl[j])
         if d is None:
+            if wf[j] != '1':
+                STATS['views without H that agree with the overlay anyway'] += 1
             continue
         if wf[j] == '1':
             return 'view %d is not the OCI overlay of layers 0..%d although H holds: %s' % (j, j, d), None
         failing = [c for c in cls[j].split(',') if c != '-']
         finds = [c for c in PRIORITY if c in failing]
         if finds:
-            return 'view %d is not the OCI overlay of layers 0..%d (%s; failing clauses of H: %s)' % (j, j, d, ','.join(failing)), CLASS_KEY[finds[0]]
-        # only ill-formed tars (duplicate names, entries below a file, ...): outside the quantifier
-    return _squash_verdict(case, fi, wf)
+            STATS['views without H that differ: known-finding class ' + CLASS_KEY[finds[0]]] += 1
+            finding = finding or ('view %d is not the OCI overlay of layers 0..%d (%s; failing clauses of H: %s)' % (j, j, d, ','.join(failing)),
+                                  CLASS_KEY[finds[0]])
+            continue
+        if 'ill-dup' in failing and awf[j] == '1':
+            # a member name repeated in one tar and nothing else wrong: the loader must at least be the overlay of the tars read as "first entry counts"
+            d2, _ = _view_diff(j, nv, req, iw[j], il[j], aw[j], al[j])
+            if d2 is not None:
+                return ('view %d is neither the OCI overlay of layers 0..%d (%s) nor the overlay of the same tars with repeated member names '
+                        'read as "the first entry counts", for which H holds (%s)' % (j, j, d, d2)), None
+            STATS['views without H that differ: known-finding class ' + DUP_KEY] += 1
+            finding = finding or ('view %d is not the OCI overlay of layers 0..%d (%s): of the entries of one tar with the same name the first '
+                                  'counts instead of the last (it is the overlay of the tars with the repeats left out)' % (j, j, d), DUP_KEY)
+            continue
+        # only ill-formed tars (entries below a file, an entry for the root, a whiteout below a file, a rejected oversize file followed by
+        # the same name, a repeated name together with one of these): outside the quantifier, no claim — counted
+        STATS['views without H that differ: skipped, no claim (ill-formed tar: %s)' % ','.join(sorted(failing))] += 1
+        STATS['views without H that differ: skipped, no claim'] += 1
+    sv = _squash_verdict(case, fi, wf)
+    if sv[0] is not None and sv[1] is None:
+        return sv
+    return finding or sv
 
 
 def _clean(name):
@@ -144,14 +178,20 @@ def _squash_verdict(case, fi, wf):
     through links and drops dangling ones; C06/C17 territory) and no fifo"""
     sq = fi.get('squash')
     if sq in (None, 'na', 'err') or not wf or wf[-1] != '1':
+        STATS['squash not judged: ' + ('not unpacked (requirer set or size limit below 2^20)' if sq in (None, 'na') else
+                                       'UnpackSquashed failed' if sq == 'err' else 'H fails for the final view')] += 1
         return None, None
     t = case.split(' ')
     layers = [[e.split(':') for e in (l.split(';') if l not in ('-', '') else [])] for l in t[5].split('|')]
     if any(e[0] in 'sho' for l in layers for e in l):
+        STATS['squash not judged: image has a symlink, hard link or fifo entry'] += 1
         return None, None              # links, and entry types outside the property's quantifier (mutate.Extract treats a fifo as a file)
     last = fi['walk'].split('|')[-1]
     view = sorted(x.split(':')[0] + ':' + x.split(':')[-1] for x in _items(last) if x.split(':')[1] == 'f')
     got = _items(sq)
+    STATS['squash judged'] += 1
+    if view:
+        STATS['squash judged, final view has a regular file'] += 1
     if view == got:
         return None, None
     d = sorted(set(view) ^ set(got))
@@ -168,6 +208,7 @@ def _squash_verdict(case, fi, wf):
             elif c[-1] in ('.wh.', '.wh..', '.wh...') or (typ == 'd' and c[-1].startswith('.wh.')):
                 odd = True
     if odd:
+        STATS['squash judged, differs, skipped: whiteout of "", "." or "..", or a directory named .wh.x'] += 1
         return None, None              # whiteouts of "", "." or "..", directories named .wh.x: no claim
     return text, None
 
@@ -213,7 +254,7 @@ def run(ctx):
     ctx.assumptions = ['entries rejected by the loader (size >= MaxFileBytes, link target outside the root, unsupported type) are treated as absent from the tar by model and spec',
                        'file content is compared through a modelled extraction directory; the theorems speak about content ids carried by the nodes',
                        'symlink chains in the final view are shorter than MaxSymlinkDepth (the required-target marking depends on map iteration order beyond that)',
-                       'with a requirer, directories emptied by the pruning may vanish and the content of non-required files in non-final views is unspecified (DESIGN §5 C04 (6))',
+                       'with a requirer, the content of non-required files in non-final views is unspecified (DESIGN §5 C04 (6))',
                        'tars with duplicate member names, entries beneath a non-directory, or a whiteout listed beneath an older layer\'s file are ill-formed: no claim']
     ctx.rule = ('case = image of 1..5 layers (<= 9 entries each: directories, files, symlinks, hard links, whiteouts, opaque markers, odd names) over paths of depth <= 4 on 3 names, '
                 'generated by editing a simulated file system (40%), freely (50%) or with malformed names (10%); spellings plain, ./, /, //, /./, x/../; parent-first, child-first '
@@ -250,6 +291,7 @@ def run(ctx):
     ctx.extra['H_split'] = ('images (load ok) whose views all satisfy H: %d; some views: %d; none: %d; load errors: %d. 25%% of the random images come from a '
                             'dedicated stream (simulated build steps, explicit parents, a deleted path never re-created) built to satisfy H in every view' % (
                                 d.get('H=all', 0), d.get('H=some', 0), d.get('H=none', 0), d.get('load-error', 0)))
+    ctx.extra['judged'] = dict(sorted(STATS.items()))
     ctx.extra['c10_layer_bytes'] = ('every implementation reply is also checked for: no file item of size >= MaxFileBytes in any walk/lookup, '
                                     'largest regular file below Image.ExtractDir <= MaxFileBytes (field maxdisk)')
     if not proofs_ok:
